@@ -51,6 +51,9 @@ func (r *run) emit(op, out string) {
 	if i := strings.IndexByte(out, ' '); i >= 0 {
 		cls = out[:i]
 	}
+	if len(cls) > 0 && cls[0] >= '0' && cls[0] <= '9' {
+		cls = "value"
+	}
 	r.classes[strings.SplitN(op, " ", 2)[0]+"->"+cls]++
 	if len(r.samples) < 12 && r.nOps%997 == 1 {
 		s := op + " => " + out
@@ -608,6 +611,229 @@ func (r *run) c15(g *gen.G, budget int) {
 	_ = util.PackString
 }
 
+// ---- C11 ----
+
+// bitWriter assembles octets most-significant bit first: an independent rendering of the layout
+// tables of the KNX specification.
+type bitWriter struct {
+	out  []byte
+	cur  uint
+	nbit uint
+}
+
+func (w *bitWriter) put(v uint, width uint) {
+	for i := int(width) - 1; i >= 0; i-- {
+		w.cur = w.cur<<1 | (v>>uint(i))&1
+		w.nbit++
+		if w.nbit == 8 {
+			w.out = append(w.out, byte(w.cur))
+			w.cur, w.nbit = 0, 0
+		}
+	}
+}
+
+func (w *bitWriter) bytes(b []byte) {
+	for _, x := range b {
+		w.put(uint(x), 8)
+	}
+}
+
+func b2u(b bool) uint {
+	if b {
+		return 1
+	}
+	return 0
+}
+
+// specLData renders an L_Data frame from its fields according to the specification.
+func specLData(code uint8, l *cemi.LData) []byte {
+	w := &bitWriter{}
+	w.put(uint(code), 8)
+	w.put(uint(len(l.Info)), 8)
+	w.bytes(l.Info)
+	w.put(uint(l.Control1), 8)
+	w.put(uint(l.Control2), 8)
+	w.put(uint(l.Source), 16)
+	w.put(uint(l.Destination), 16)
+	switch t := l.Data.(type) {
+	case *cemi.AppData:
+		w.put(uint(len(t.Data)), 8)
+		w.put(0, 1)
+		w.put(b2u(t.Numbered), 1)
+		w.put(uint(t.SeqNumber), 4)
+		w.put(uint(t.Command), 4) // APCI: high two bits end the TPCI octet, low two start the next
+		w.put(uint(t.Data[0]), 6)
+		w.bytes(t.Data[1:])
+	case *cemi.ControlData:
+		w.put(0, 8)
+		w.put(1, 1)
+		w.put(b2u(t.Numbered), 1)
+		w.put(uint(t.SeqNumber), 4)
+		w.put(uint(t.Command), 2)
+	}
+	return w.out
+}
+
+func (r *run) c11Frame(m cemi.Message, l *cemi.LData) {
+	toks := ktext.Join(ktext.Cemi(m))
+	r.distinct[toks] = true
+	op := "encc " + toks
+	size := cemi.Size(m)
+	buf := make([]byte, size)
+	var pmsg string
+	func() {
+		defer func() {
+			if p := recover(); p != nil {
+				pmsg = fmt.Sprint(p)
+			}
+		}()
+		cemi.Pack(buf, m)
+	}()
+	if pmsg != "" {
+		r.emit(op, "panic")
+		r.violation("pack-panic", op, pmsg)
+		return
+	}
+	r.emit(op, fmt.Sprintf("ok %d %s", size, ktext.Hex(buf)))
+	want := specLData(uint8(m.MessageCode()), l)
+	if !bytes.Equal(buf, want) {
+		r.violation("layout-encode", op, "specified layout "+ktext.Hex(want)+" | encoder wrote "+ktext.Hex(buf))
+	}
+	d := decodeCemi(want)
+	op2 := "decc " + ktext.Hex(want) + " -"
+	r.emit(op2, d.String())
+	if d.class != "ok" || ktext.Join(d.toks) != toks {
+		r.violation("layout-decode", op2, "fields "+toks+" | decoder extracted "+d.String())
+	}
+}
+
+func (r *run) c11(g *gen.G, budget int) {
+	g.Oversize = false
+	mk := func(kind int, l cemi.LData) (cemi.Message, *cemi.LData) {
+		switch kind % 3 {
+		case 0:
+			m := &cemi.LDataReq{LData: l}
+			return m, &m.LData
+		case 1:
+			m := &cemi.LDataCon{LData: l}
+			return m, &m.LData
+		}
+		m := &cemi.LDataInd{LData: l}
+		return m, &m.LData
+	}
+	// all 2^16 pairs of control octets (sampled down when the budget is small)
+	step := 1
+	if budget < 140000 {
+		step = 65536*2/budget + 1
+	}
+	off := g.R.Intn(step)
+	for p := off; p < 65536; p += step {
+		l := g.LData()
+		l.Control1 = cemi.ControlField1(p >> 8)
+		l.Control2 = cemi.ControlField2(p)
+		if len(l.Info) > 20 {
+			l.Info = l.Info[:g.R.Intn(20)]
+		}
+		if a, ok := l.Data.(*cemi.AppData); ok && len(a.Data) > 20 {
+			a.Data = a.Data[:1+g.R.Intn(19)]
+		}
+		m, lp := mk(p, l)
+		r.c11Frame(m, lp)
+	}
+	// all APCI x seq x numbered x control/data combinations
+	for apci := 0; apci < 16; apci++ {
+		for seq := 0; seq < 16; seq++ {
+			for nb := 0; nb < 2; nb++ {
+				if nb == 0 && seq != 0 {
+					continue // an unnumbered unit has no sequence number
+				}
+				l := g.LData()
+				l.Info = nil
+				l.Data = &cemi.AppData{Numbered: nb == 1, SeqNumber: uint8(seq), Command: cemi.APCI(apci), Data: []byte{uint8(g.R.Intn(64))}}
+				m, lp := mk(apci+seq, l)
+				r.c11Frame(m, lp)
+				if apci < 4 {
+					l2 := g.LData()
+					l2.Data = &cemi.ControlData{Numbered: nb == 1, SeqNumber: uint8(seq), Command: uint8(apci)}
+					m2, lp2 := mk(apci+seq+1, l2)
+					r.c11Frame(m2, lp2)
+				}
+			}
+		}
+	}
+	// payload lengths 1..254, info lengths 0..255, corner addresses
+	for n := 1; n <= 254; n++ {
+		l := g.LData()
+		l.Info = cemi.Info(g.Bytes(n))
+		d := g.Bytes(n)
+		d[0] &= 63
+		l.Data = &cemi.AppData{Numbered: true, SeqNumber: uint8(n % 16), Command: cemi.APCI(n % 16), Data: d}
+		l.Source = cemi.IndividualAddr([]uint16{0, 1, 0x1101, 0x7fff, 0x8000, 0xffff}[n%6])
+		l.Destination = []uint16{0, 1, 0x0902, 0x7fff, 0x8000, 0xffff}[(n/6)%6]
+		m, lp := mk(n, l)
+		r.c11Frame(m, lp)
+	}
+	for r.nOps < budget {
+		l := g.LData()
+		m, lp := mk(g.R.Intn(3), l)
+		r.c11Frame(m, lp)
+	}
+}
+
+func min7(h int) int {
+	if h > 7 {
+		return 7
+	}
+	return h
+}
+
+// c11h: the flag constructors / accessors and the address constructors over their whole domains,
+// against arithmetic written from the specification (no shifts or masks of the code reused).
+func (r *run) c11h(g *gen.G, budget int) {
+	u := func(n interface{}) string { return fmt.Sprint(n) }
+	chk := func(op string, got, want int, what string) {
+		r.emit(op, u(got))
+		r.distinct[op] = true
+		if got != want {
+			r.violation("helper-"+what, op, fmt.Sprintf("specification says %d, the function returned %d", want, got))
+		}
+	}
+	for x := 0; x < 256; x++ {
+		chk("prio "+u(x), int(cemi.Control1Prio(cemi.Priority(x))), (x%4)*4, "priority-constructor")
+		chk("hopsc "+u(x), int(cemi.Control2Hops(uint8(x))), min7(x)*16, "hops-constructor")
+		chk("hops "+u(x), int(cemi.ControlField2(x).Hops()), (x/16)%8, "hops-accessor")
+		chk("isgroup "+u(x), int(b2u(cemi.ControlField2(x).IsGroupAddr())), x/128, "group-flag")
+		chk("isgcmd "+u(x), int(b2u(cemi.APCI(x).IsGroupCommand())), int(b2u(x < 3)), "group-command-test")
+		if got := int(cemi.Control2Hops(uint8(x)).Hops()); got != min7(x) {
+			r.violation("helper-hops-roundtrip", "hops(hopsc "+u(x)+")", fmt.Sprintf("constructor encoded %d, accessor returned %d", min7(x), got))
+		}
+		for _, other := range []int{0x00, 0x80, 0x8f, 0x0f} {
+			c := cemi.ControlField2(other) | cemi.Control2Hops(uint8(x))
+			if got := int(c.Hops()); got != min7(x) {
+				r.violation("helper-hops-roundtrip", fmt.Sprintf("hops(%d|hopsc %d)", other, x), fmt.Sprintf("constructor encoded %d, accessor returned %d", min7(x), got))
+			}
+		}
+	}
+	addrOps := func(a, b, c int) {
+		chk(fmt.Sprintf("ia3 %d %d %d", a, b, c), int(cemi.NewIndividualAddr3(uint8(a), uint8(b), uint8(c))), (a%16)*4096+(b%16)*256+c, "individual-3")
+		chk(fmt.Sprintf("ga3 %d %d %d", a, b, c), int(cemi.NewGroupAddr3(uint8(a), uint8(b), uint8(c))), (a%32)*2048+(b%8)*256+c, "group-3")
+		chk(fmt.Sprintf("ia2 %d %d", a, b), int(cemi.NewIndividualAddr2(uint8(a), uint8(b))), a*256+b, "individual-2")
+		w := b*256 + c
+		chk(fmt.Sprintf("ga2 %d %d", a, w), int(cemi.NewGroupAddr2(uint8(a), uint16(w))), (a%32)*2048+w%2048, "group-2")
+	}
+	corners := []int{0, 1, 7, 8, 15, 16, 31, 32, 127, 128, 254, 255}
+	for _, a := range corners {
+		for _, b := range corners {
+			for _, c := range corners {
+				addrOps(a, b, c)
+			}
+		}
+	}
+	for r.nOps < budget {
+		addrOps(g.R.Intn(256), g.R.Intn(256), g.R.Intn(256))
+	}
+}
+
 func main() {
 	prop := flag.String("prop", "", "C01 | C02 | C15")
 	seed := flag.Int64("seed", 1, "PRNG seed")
@@ -632,6 +858,10 @@ func main() {
 		r.c02(g, *budget)
 	case "C15":
 		r.c15(g, *budget)
+	case "C11":
+		r.c11(g, *budget)
+	case "C11h":
+		r.c11h(g, *budget)
 	default:
 		fmt.Fprintln(os.Stderr, "unknown -prop")
 		os.Exit(2)
